@@ -23,7 +23,7 @@
    values.  Real return addresses are numbers below 2^32, the two trampolines are MRET and PRET.
 
    Part 2 (replay side): utils/fstack.c fstack_entry / fstack_update / fstack_update_stack_count for
-   the setjmp / longjmp fix-up (one global setjmp_depth / setjmp_count pair).
+   the setjmp / longjmp fix-up (one global setjmp_depth / setjmp_count pair, shared by all tasks of a trace).
 
    Not modelled: filters/triggers (MCOUNT_FL_NORECORD frames), -finstrument-functions frames
    (cygprof_dummy), vfork save area, mtd_dtor, estimate-return, other architectures, threads (the
@@ -127,12 +127,14 @@ Fixpoint restore_all (l : list ent) (mm : mem) : mem :=
   | [] => mm
   | e :: r => restore_all r (if is_tramp (e_ip e) then mm else upd mm (e_loc e) (e_ip e))
   end.
-(* mcount_rstack_rehook: from the top down, *parent_loc = the trampoline of the entry's kind *)
-Fixpoint rehook_all (l : list ent) (mm : mem) : mem :=
+(* mcount_rstack_rehook (since /repo fix C01-9: oldest entry first): *parent_loc = the trampoline of the
+   entry's kind; the entries of a tail-call chain share one slot, which ends up with the NEWEST one's *)
+Fixpoint rehook_from (l : list ent) (mm : mem) : mem :=
   match l with
   | [] => mm
-  | e :: r => rehook_all r (upd mm (e_loc e) (tramp_of (e_plt e)))
+  | e :: r => rehook_from r (upd mm (e_loc e) (tramp_of (e_plt e)))
   end.
+Definition rehook_all (l : list ent) (mm : mem) : mem := rehook_from (rev l) mm.
 (* the walk of mcount_auto_restore: first entry (downwards) whose parent_ip is not a trampoline *)
 Fixpoint restore_first (l : list ent) (mm : mem) : mem :=
   match l with
@@ -233,7 +235,10 @@ Definition kind_of (k : skind) (arg : N) : skd :=
 
 (* __plthook_entry(ret_addr = loc, child), ARG1 = arg.  Since fix (plthook: landing pads) a call made while
    in_exception is set first drops the entries of the frames unwound so far (parent_loc <= ret_addr),
-   exactly as __mcount_entry does. *)
+   exactly as __mcount_entry does.  Since fix 945cdf8/ae9d4a7 the C code does so only for a call whose return
+   slot lies above the frame recorded by the last exception wrapper (mtdp->exception_frame): calls from inside the
+   unwinder or the C++ runtime (hooked with --nest-libcall only) lie below it.  The programs of this model make no
+   such calls (they are untraced code), so the guard is taken as true; it is exercised end to end only. *)
 Definition plthook_push (s : lst) (k : skind) (child loc arg : N) : lst :=
   let e := new_ent s true child loc (kind_of k arg) in
   let m1 := auto_restore (inexc s) (e :: rs s) (upd (m s) loc PRET) in
@@ -424,7 +429,6 @@ Definition expect := option (N * N).
      - a traced function entered while in_exception hands a frame address that does not separate
        dropped from live frames (e.g. -mfentry: the word below the slot is not a frame pointer);
      - tail calls while in_exception; setjmp / longjmp / nested throw while an exception is in flight;
-     - tail-call chains mixing PLT and mcount kinds;
      - _Unwind_RaiseException called through the PLT of the traced module.                         *)
 Definition rstep (st : rstk) (o : op) : option (rstk * expect) :=
   match o with
@@ -476,7 +480,6 @@ Definition rstep (st : rstk) (o : op) : option (rstk * expect) :=
       match frames st with
       | f :: rest =>
           if (f_slot f =? s) && negb (exc st) && (negb (flight st) || (0 <? extra st))
-             && all_homogeneous false (f_pend f)
           then Some (bump (mk st (fresh st s (f_ra f) (false :: f_pend f) :: rest)
                               (flight st) false (extra st) (stale st)), None)
           else None
@@ -486,7 +489,6 @@ Definition rstep (st : rstk) (o : op) : option (rstk * expect) :=
       match frames st with
       | f :: rest =>
           if (f_slot f =? s) && negb (exc st) && (negb (flight st) || (0 <? extra st))
-             && all_homogeneous true (f_pend f)
           then Some (bump (mk st (fresh st s (f_ra f) (true :: f_pend f) :: rest)
                               (flight st) false (extra st) (stale st)), None)
           else None
@@ -682,6 +684,167 @@ Fixpoint bad_indices {A} (f : A -> bool) (l : list A) (i : nat) : list nat :=
   | x :: r => if f x then bad_indices f r (S i) else i :: bad_indices f r (S i)
   end.
 
+(* ================================================================ Part 1b: vfork
+   libmcount/plthook.c prepare_vfork / setup_vfork / restore_vfork.  vfork is a PLT_FL_FLUSH | PLT_FL_VFORK
+   function.  The child runs on the parent's memory and on the parent's shadow stack; it returns from vfork
+   through plthook_return (setup_vfork: own tid and trace buffer), makes calls, and finally execs or exits.
+   Then the parent resumes at plthook_return as well (libc's vfork keeps its return address in a register)
+   and finds whatever the child left: restore_vfork puts idx, record_idx, the saved copy of vfork's own entry
+   and the parent's trace buffer back.                                                             *)
+Inductive top :=
+| TOp (o : op)
+| TVfork (k s r : N) (child : list op).       (* vfork at slot s with return address r; what the child does *)
+
+Definition ob_of (v : val) (n : N) : obs := {| o_target := v; o_pops := n |}.
+Definition lastn {A} (n : nat) (l : list A) : list A := skipn (length l - n) l.
+
+Definition lstepT (s : lst) (t : top) : option (lst * list obs) :=
+  match t with
+  | TOp o => match lstep s o with Some (s', ob) => Some (s', [ob]) | None => None end
+  | TVfork k sl r child =>
+      let s1 := plthook_entry (with_m s (upd (m s) sl r)) KFlush k sl 0 in
+      match rs s1 with
+      | [] => None
+      | vtop :: _ =>
+          (* the child returns from vfork *)
+          match follow (fuel_of s1) s1 PRET 0 with
+          | None => None
+          | Some (s2, v2, n2) =>
+              match lrun s2 child with
+              | None => None
+              | Some (s3, obc) =>
+                  (* the parent returns from vfork: restore_vfork, then the ordinary exit path *)
+                  if Nat.ltb (length (rs s3)) (length (rs s1) - 1) then None else
+                  let s4 := {| rs := set_written vtop :: lastn (length (rs s1) - 1) (rs s3); ridx := ridx s1;
+                               inexc := inexc s3; m := m s3; jbs := jbs s3; jpc := jpc s3; out := out s1 |} in
+                  match follow (fuel_of s4) s4 PRET 0 with
+                  | None => None
+                  | Some (s5, v5, n5) => Some (s5, [obs0; ob_of v2 n2] ++ obc ++ [ob_of v5 n5])
+                  end
+              end
+          end
+      end
+  end.
+Fixpoint lrunT (s : lst) (ts : list top) : option (lst * list obs) :=
+  match ts with
+  | [] => Some (s, [])
+  | t :: r =>
+      match lstepT s t with
+      | None => None
+      | Some (s1, ob) => match lrunT s1 r with None => None | Some (s2, l) => Some (s2, ob ++ l) end
+      end
+  end.
+
+(* ground truth: the child may do anything a program may do as long as the frames that were live at the
+   vfork stay live (it must not return from the function that called vfork) and no exception is in flight
+   when it execs / exits; afterwards the parent continues with its own frames (and, the memory being shared,
+   with the jmp_bufs as the child left them) *)
+Fixpoint rrun_floor (floor : list rframe) (st : rstk) (ops : list op) : option (rstk * list expect) :=
+  match ops with
+  | [] => Some (st, [])
+  | o :: r =>
+      match rstep st o with
+      | None => None
+      | Some (st1, e) =>
+          if is_suffix floor (frames st1)
+          then match rrun_floor floor st1 r with None => None | Some (st2, l) => Some (st2, e :: l) end
+          else None
+      end
+  end.
+Definition rstepT (st : rstk) (t : top) : option (rstk * list expect) :=
+  match t with
+  | TOp o => match rstep st o with Some (st', e) => Some (st', [e]) | None => None end
+  | TVfork k s r child =>
+      if exc st || flight st then None else
+      match rstep st (Plt KFlush k s r 0) with                     (* the call of vfork *)
+      | Some (st1, e1) =>
+          match rstep st1 (Ret s) with                             (* its return in the child *)
+          | Some (st2, e2) =>
+              match rrun_floor (frames st) st2 child with
+              | Some (stc, ec) =>
+                  if exc stc || flight stc then None else
+                  Some ({| frames := frames st; next_id := next_id stc; jbt := jbt stc;
+                           flight := false; exc := false; extra := 0; stale := [] |},
+                        [e1; e2] ++ ec ++ [Some (r, 1)])           (* ... and in the parent *)
+              | None => None
+              end
+          | None => None
+          end
+      | None => None
+      end
+  end.
+Fixpoint rrunT (st : rstk) (ts : list top) : option (rstk * list expect) :=
+  match ts with
+  | [] => Some (st, [])
+  | t :: r =>
+      match rstepT st t with
+      | None => None
+      | Some (st1, e) => match rrunT st1 r with None => None | Some (st2, l) => Some (st2, e ++ l) end
+      end
+  end.
+Fixpoint all_ok (es : list expect) (obs : list obs) : bool :=
+  match es, obs with
+  | [], [] => true
+  | e :: er, o :: or => ok_obs e o && all_ok er or
+  | _, _ => false
+  end.
+Definition legal_progT (ts : list top) : bool := match rrunT rinit ts with Some _ => true | None => false end.
+Definition ok_runT (ts : list top) (obs : list obs) : bool :=
+  match rrunT rinit ts with Some (_, es) => all_ok es obs | None => false end.
+
+(* what the harness prints for a program with vfork sections: one digest per line (VFORK, VCHILD, the child's
+   operations, VPARENT) *)
+Definition ltraceT_step (s : lst) (t : top) : list digest * option lst :=
+  match t with
+  | TOp o => match lstep s o with Some (s', ob) => ([digest_of s' ob], Some s') | None => ([], None) end
+  | TVfork k sl r child =>
+      let s1 := plthook_entry (with_m s (upd (m s) sl r)) KFlush k sl 0 in
+      match rs s1 with
+      | [] => ([digest_of s1 obs0], None)
+      | vtop :: _ =>
+          match follow (fuel_of s1) s1 PRET 0 with
+          | None => ([digest_of s1 obs0], None)
+          | Some (s2, v2, n2) =>
+              let '(dc, fin) := ltrace s2 child in
+              match fin with
+              | None => (digest_of s1 obs0 :: digest_of s2 (ob_of v2 n2) :: dc, None)
+              | Some s3 =>
+                  if Nat.ltb (length (rs s3)) (length (rs s1) - 1)
+                  then (digest_of s1 obs0 :: digest_of s2 (ob_of v2 n2) :: dc, None) else
+                  let s4 := {| rs := set_written vtop :: lastn (length (rs s1) - 1) (rs s3); ridx := ridx s1;
+                               inexc := inexc s3; m := m s3; jbs := jbs s3; jpc := jpc s3; out := out s1 |} in
+                  match follow (fuel_of s4) s4 PRET 0 with
+                  | None => (digest_of s1 obs0 :: digest_of s2 (ob_of v2 n2) :: dc, None)
+                  | Some (s5, v5, n5) =>
+                      (digest_of s1 obs0 :: digest_of s2 (ob_of v2 n2) :: dc ++ [digest_of s5 (ob_of v5 n5)], Some s5)
+                  end
+              end
+          end
+      end
+  end.
+Fixpoint ltraceT (s : lst) (ts : list top) : list digest * option lst :=
+  match ts with
+  | [] => ([], Some s)
+  | t :: r =>
+      match ltraceT_step s t with
+      | (d, Some s1) => let '(l, fin) := ltraceT s1 r in (d ++ l, fin)
+      | (d, None) => (d, None)
+      end
+  end.
+Definition fcaseT := (list top * list N * list N * bool)%type.
+Fixpoint nops (ts : list top) : nat :=
+  match ts with [] => O | TOp _ :: r => S (nops r) | TVfork _ _ _ c :: r => (3 + length c + nops r)%nat end.
+Definition fagreeT (c : fcaseT) : bool :=
+  let '(ts, ds, recs, cr) := c in
+  match ltraceT init ts with
+  | (l, Some s) => negb cr && list_eqb digest_eqb l (decode_digests (S (nops ts)) ds)
+                   && list_eqb c3_eqb (map rec_code (out s)) (decode_recs recs)
+  | (l, None) => cr && list_eqb digest_eqb l (decode_digests (S (nops ts)) ds)
+  end.
+Definition fokT (c : fcaseT) : bool :=
+  let '(ts, ds, _, cr) := c in negb cr && ok_runT ts (map obs_of_digest (decode_digests (S (nops ts)) ds)).
+Definition flegalT (c : fcaseT) : bool := let '(ts, _, _, _) := c in legal_progT ts.
+
 (* ================================================================ Part 2: replay side *)
 From Coq Require Import ZArith.
 (* one record of a task's stream as replay classifies it (fixup_syms); an EXIT carries the depth field
@@ -777,6 +940,80 @@ Definition ok_replay_entries (es : list sev) (shown : list N) : bool :=
   match gt_run gt0 es with Some l => nlist_eqb (entry_depths es l) shown | None => false end.
 Definition agree_replay_entries (es : list sev) (shown : list N) : bool :=
   nlist_eqb (entry_depths es (rp_run rp0 es)) shown.
+
+(* ---------------------------------------------------------------- several tasks in one trace
+   setjmp_depth / setjmp_count are file-level statics of utils/fstack.c: every task (thread or process) of the
+   trace reads and writes the same pair, so the "latest setjmp" guessed at a longjmp may be another task's.
+   The merged stream is a list of (task, record); stack_count / display_depth / longjmp_pending are per task. *)
+Record tk := { k_sc : Z; k_dd : Z; k_pend : bool }.
+Definition tk0 := {| k_sc := 0; k_dd := 0; k_pend := false |}.
+Record rpm := { m_task : N -> tk; m_sd : Z; m_sc : Z }.
+Definition rpm0 := {| m_task := fun _ => tk0; m_sd := 0; m_sc := 0 |}.
+Definition view (s : rpm) (t : N) : rp :=
+  {| stack_count := k_sc (m_task s t); display_depth := k_dd (m_task s t);
+     setjmp_depth := m_sd s; setjmp_count := m_sc s; lj_pending := k_pend (m_task s t) |}.
+Definition rpm_step (s : rpm) (t : N) (e : sev) : rpm * N :=
+  let p := fst (rp_step (view s t) e) in
+  ({| m_task := fun x => if x =? t
+                         then {| k_sc := stack_count p; k_dd := display_depth p; k_pend := lj_pending p |}
+                         else m_task s x;
+      m_sd := setjmp_depth p; m_sc := setjmp_count p |}, snd (rp_step (view s t) e)).
+Fixpoint rpm_run (s : rpm) (es : list (N * sev)) : list N :=
+  match es with [] => [] | (t, e) :: r => snd (rpm_step s t e) :: rpm_run (fst (rpm_step s t e)) r end.
+(* ground truth: every task has its own call stack and its own jmp_bufs *)
+Fixpoint gtm_run (g : N -> gt) (es : list (N * sev)) : option (list N) :=
+  match es with
+  | [] => Some []
+  | (t, e) :: r =>
+      match gt_step (g t) e with
+      | None => None
+      | Some (g', d) =>
+          match gtm_run (fun x => if x =? t then g' else g x) r with None => None | Some l => Some (d :: l) end
+      end
+  end.
+(* the depths of the ENTRY records of task t *)
+Fixpoint entry_depths_of (t : N) (es : list (N * sev)) (ds : list N) : list N :=
+  match es, ds with
+  | (u, SEntry _) :: er, d :: dr => if u =? t then d :: entry_depths_of t er dr else entry_depths_of t er dr
+  | (_, SExit _) :: er, _ :: dr => entry_depths_of t er dr
+  | _, _ => []
+  end.
+(* shown: per task, the depths of its `f() {` / `f();` lines in replay's output *)
+Definition ok_replay_tasks (es : list (N * sev)) (shown : list (N * list N)) : bool :=
+  match gtm_run (fun _ => gt0) es with
+  | Some l => forallb (fun p : N * list N => nlist_eqb (entry_depths_of (fst p) es l) (snd p)) shown
+  | None => false
+  end.
+Definition agree_replay_tasks (es : list (N * sev)) (shown : list (N * list N)) : bool :=
+  forallb (fun p : N * list N => nlist_eqb (entry_depths_of (fst p) es (rpm_run rpm0 es)) (snd p)) shown.
+
+(* the resynchronisation restricted to a guess that was too deep (`diff > 0` instead of `diff != 0`): right for
+   one task - a later setjmp of the same task is never shallower than a live older one - and wrong as soon as
+   another task's shallower setjmp is the latest (refuted in ProofsReplay.v) *)
+Definition rp_step_shrink_only (p : rp) (e : sev) : rp * N :=
+  match e with
+  | SEntry _ => rp_step p e
+  | SExit d =>
+      let diff0 := if lj_pending p then (stack_count p - 1 - Z.of_N d)%Z else 0%Z in
+      let diff := if (0 <? diff0)%Z then diff0 else 0%Z in
+      let sc1 := (stack_count p - diff)%Z in
+      let dd1 := if (diff =? 0)%Z then display_depth p else Z.max 0 (display_depth p - diff) in
+      let sc2 := if (0 <? sc1)%Z then (sc1 - 1)%Z else sc1 in
+      let dd2 := if (0 <? dd1)%Z then (dd1 - 1)%Z else 0%Z in
+      ({| stack_count := sc2; display_depth := dd2;
+          setjmp_depth := setjmp_depth p; setjmp_count := setjmp_count p; lj_pending := false |}, Z.to_N dd2)
+  end.
+Definition rpm_step_with (step : rp -> sev -> rp * N) (s : rpm) (t : N) (e : sev) : rpm * N :=
+  let p := fst (step (view s t) e) in
+  ({| m_task := fun x => if x =? t
+                         then {| k_sc := stack_count p; k_dd := display_depth p; k_pend := lj_pending p |}
+                         else m_task s x;
+      m_sd := setjmp_depth p; m_sc := setjmp_count p |}, snd (step (view s t) e)).
+Fixpoint rpm_run_with (step : rp -> sev -> rp * N) (s : rpm) (es : list (N * sev)) : list N :=
+  match es with
+  | [] => []
+  | (t, e) :: r => snd (rpm_step_with step s t e) :: rpm_run_with step (fst (rpm_step_with step s t e)) r
+  end.
 
 (* checker for the record stream the implementation wrote in-process: classify its records with the kinds
    (setjmp / longjmp and their jmp_buf) the program's operations imply, then ask the ground truth and the
